@@ -11,6 +11,7 @@
 //!
 //! Case language (one item per line):
 //!   col <thr 0..5> <targets e.g. 0,2 or -> <dyn 0 static|1 dynamic,off|2 dynamic,on> <hint 0 none | n+1>
+//!       (a target index 100 in the list marks the collector as a `Dispatch::from_static` one: a zero-sized unit struct in a static)
 //!   op new | drop <c> | open <t> <d 0=Dispatch::none, c+1> | close <t> <k> | setglobal <t> <c>
 //!      | emit <t> <cs> | probe <t> <cs> | getdefault <t> [cs] | getcurrent <t> | rebuild | flip <c>
 //!      | panic <t> <d,d,..>      (with_default nesting, observe the default innermost, panic, catch_unwind)
@@ -18,12 +19,19 @@
 //!                                    k = 0 nothing, 1 panic, 2 emit at cs2 from inside the callback then return, 3 emit at cs2 then
 //!                                    panic.  The panic unwinds through tracing's dispatch code and is caught here (catch_unwind).
 //!                                    `del` lists the outer delivery first, then what the nested emission delivered.
+//!      | exit <t> <d> <cs>       thread t EXITS.  Two of its thread-locals (EARLY: registered when the thread started, before
+//!                                its first use of tracing; LATE: registered now, after tracing-core's own CURRENT_STATE)
+//!                                have destructors that do `with_default(&d, || emit cs)`.  Whatever order the platform
+//!                                runs thread-local destructors in, exactly one of the two runs while CURRENT_STATE is
+//!                                still alive (an ordinary scope) and the other after it is destroyed (every `try_with`
+//!                                fails).  Before that the thread's remaining guards are dropped innermost-first.  The
+//!                                controller joins the thread; a later op on <t> starts a fresh OS thread.
 //! Threads are real OS threads, created at first use, driven one op at a time by the controller (main).
 //! Encodings equal Dispatch/Model.v: dispatcher 0 = none, c+1 = collector c; interest 0/1/2; level rank 0..5.
 use std::io::{Read, Write};
 use std::panic::{catch_unwind, AssertUnwindSafe};
 use std::sync::atomic::{AtomicBool, Ordering};
-use std::sync::{mpsc, Arc, Mutex};
+use std::sync::{mpsc, Arc, Mutex, OnceLock};
 use tracing_core::{
     collect::{Collect, Interest, NoCollector},
     dispatch::{self, DefaultGuard, Dispatch},
@@ -69,17 +77,14 @@ fn target_index(t: &str) -> usize {
     TARGETS.iter().position(|x| *x == t).unwrap_or(99)
 }
 
-/// The recording collector: level threshold x target set x static-or-dynamic interest x optional hint.
-/// Side-effect free filter methods (they only read), so the oracle may ask them at any time.
-struct Rec {
-    id: usize,
+/// A collector's filter: level threshold x target set x static-or-dynamic interest x optional hint.
+struct Filt {
     thr: LevelFilter,
     tgts: Vec<usize>,
     dynamic: bool,
-    flag: Arc<AtomicBool>,
     hint: Option<LevelFilter>,
 }
-impl Rec {
+impl Filt {
     fn static_ok(&self, level: &Level, target: &str) -> bool {
         *level <= self.thr && self.tgts.iter().any(|t| TARGETS[*t] == target)
     }
@@ -94,34 +99,45 @@ impl Rec {
             0
         }
     }
-    fn decide_en(&self, level: &Level, target: &str) -> bool {
-        self.static_ok(level, target) && (!self.dynamic || self.flag.load(Ordering::SeqCst))
+    fn decide_en(&self, level: &Level, target: &str, flag: bool) -> bool {
+        self.static_ok(level, target) && (!self.dynamic || flag)
     }
+}
+fn interest_of(k: u8) -> Interest {
+    match k {
+        0 => Interest::never(),
+        1 => Interest::sometimes(),
+        _ => Interest::always(),
+    }
+}
+fn log_delivery(id: usize, kind: u8, m: &Metadata<'_>) {
+    LOG.lock().unwrap().push((id, kind, level_rank(m.level()), target_index(m.target())));
+    callback_hook();
+}
+
+/// The recording collector (`Dispatch::new`).  Side-effect free filter methods (they only read), so the oracle may
+/// ask them at any time.
+struct Rec {
+    id: usize,
+    filt: Filt,
+    flag: Arc<AtomicBool>,
 }
 impl Collect for Rec {
     fn register_callsite(&self, m: &'static Metadata<'static>) -> Interest {
-        match self.decide_reg(m.level(), m.target()) {
-            0 => Interest::never(),
-            1 => Interest::sometimes(),
-            _ => Interest::always(),
-        }
+        interest_of(self.filt.decide_reg(m.level(), m.target()))
     }
     fn enabled(&self, m: &Metadata<'_>) -> bool {
-        self.decide_en(m.level(), m.target())
+        self.filt.decide_en(m.level(), m.target(), self.flag.load(Ordering::SeqCst))
     }
     fn max_level_hint(&self) -> Option<LevelFilter> {
-        self.hint
+        self.filt.hint
     }
     fn new_span(&self, a: &span::Attributes<'_>) -> span::Id {
-        let m = a.metadata();
-        LOG.lock().unwrap().push((self.id, 0, level_rank(m.level()), target_index(m.target())));
-        callback_hook();
+        log_delivery(self.id, 0, a.metadata());
         span::Id::from_u64(1)
     }
     fn event(&self, e: &Event<'_>) {
-        let m = e.metadata();
-        LOG.lock().unwrap().push((self.id, 1, level_rank(m.level()), target_index(m.target())));
-        callback_hook();
+        log_delivery(self.id, 1, e.metadata());
     }
     fn record(&self, _: &span::Id, _: &span::Record<'_>) {}
     fn record_follows_from(&self, _: &span::Id, _: &span::Id) {}
@@ -132,10 +148,86 @@ impl Collect for Rec {
     }
 }
 
+/// `Dispatch::from_static` collectors, written the usual way: zero-sized unit structs in a `static`.  ZRec<I> is
+/// recording collector I; its filter lives in ZCONF[I] / ZFLAG[I].  They are fields of ONE static, so — being
+/// zero-sized — all six values start at the same address (distinct collectors, distinct vtables, same data pointer).
+const NZ: usize = 6;
+static ZCONF: [OnceLock<Filt>; NZ] = [const { OnceLock::new() }; NZ];
+static ZFLAG: [AtomicBool; NZ] = [const { AtomicBool::new(false) }; NZ];
+struct ZRec<const I: usize>;
+impl<const I: usize> Collect for ZRec<I> {
+    fn register_callsite(&self, m: &'static Metadata<'static>) -> Interest {
+        interest_of(ZCONF[I].get().unwrap().decide_reg(m.level(), m.target()))
+    }
+    fn enabled(&self, m: &Metadata<'_>) -> bool {
+        ZCONF[I].get().unwrap().decide_en(m.level(), m.target(), ZFLAG[I].load(Ordering::SeqCst))
+    }
+    fn max_level_hint(&self) -> Option<LevelFilter> {
+        ZCONF[I].get().unwrap().hint
+    }
+    fn new_span(&self, a: &span::Attributes<'_>) -> span::Id {
+        log_delivery(I, 0, a.metadata());
+        span::Id::from_u64(1)
+    }
+    fn event(&self, e: &Event<'_>) {
+        log_delivery(I, 1, e.metadata());
+    }
+    fn record(&self, _: &span::Id, _: &span::Record<'_>) {}
+    fn record_follows_from(&self, _: &span::Id, _: &span::Id) {}
+    fn enter(&self, _: &span::Id) {}
+    fn exit(&self, _: &span::Id) {}
+    fn current_span(&self) -> span::Current {
+        span::Current::none()
+    }
+}
+struct ZAll(ZRec<0>, ZRec<1>, ZRec<2>, ZRec<3>, ZRec<4>, ZRec<5>);
+static ZS: ZAll = ZAll(ZRec, ZRec, ZRec, ZRec, ZRec, ZRec);
+fn from_static(i: usize) -> Dispatch {
+    match i {
+        0 => Dispatch::from_static(&ZS.0),
+        1 => Dispatch::from_static(&ZS.1),
+        2 => Dispatch::from_static(&ZS.2),
+        3 => Dispatch::from_static(&ZS.3),
+        4 => Dispatch::from_static(&ZS.4),
+        _ => Dispatch::from_static(&ZS.5),
+    }
+}
+/// Which static collector is behind `d`, if any.
+fn zindex(d: &Dispatch) -> Option<usize> {
+    if d.is::<ZRec<0>>() {
+        Some(0)
+    } else if d.is::<ZRec<1>>() {
+        Some(1)
+    } else if d.is::<ZRec<2>>() {
+        Some(2)
+    } else if d.is::<ZRec<3>>() {
+        Some(3)
+    } else if d.is::<ZRec<4>>() {
+        Some(4)
+    } else if d.is::<ZRec<5>>() {
+        Some(5)
+    } else {
+        None
+    }
+}
+/// The current collector's OWN answers (register_callsite, enabled) for a pool entry.
+fn own_answers(d: &Dispatch, lvl: &Level, tgt: &str) -> Option<(u8, bool)> {
+    if let Some(r) = d.downcast_ref::<Rec>() {
+        Some((r.filt.decide_reg(lvl, tgt), r.filt.decide_en(lvl, tgt, r.flag.load(Ordering::SeqCst))))
+    } else if let Some(i) = zindex(d) {
+        let f = ZCONF[i].get().unwrap();
+        Some((f.decide_reg(lvl, tgt), f.decide_en(lvl, tgt, ZFLAG[i].load(Ordering::SeqCst))))
+    } else {
+        None
+    }
+}
+
 /// 0 = the no-op dispatcher, c+1 = recording collector c, -1 = something else.
 fn ident(d: &Dispatch) -> i64 {
     if let Some(r) = d.downcast_ref::<Rec>() {
         r.id as i64 + 1
+    } else if let Some(i) = zindex(d) {
+        i as i64 + 1
     } else if d.is::<NoCollector>() {
         0
     } else {
@@ -237,7 +329,26 @@ pool! {
     63 => hint INFO 0 "a";
 }
 
+/// "Flush on thread exit": a per-thread resource whose destructor emits inside its own scope.
+struct FlushOnExit {
+    sink: Dispatch,
+    cs: usize,
+}
+impl Drop for FlushOnExit {
+    fn drop(&mut self) {
+        let cs = self.cs;
+        dispatch::with_default(&self.sink, || {
+            let _ = catch_unwind(|| hit(cs));
+        });
+    }
+}
+thread_local! {
+    static EARLY: std::cell::RefCell<Option<FlushOnExit>> = const { std::cell::RefCell::new(None) };
+    static LATE: std::cell::RefCell<Option<FlushOnExit>> = const { std::cell::RefCell::new(None) };
+}
+
 enum Cmd {
+    Exit(Option<Dispatch>, usize),
     Open(Option<Dispatch>),
     Close(usize),
     SetGlobal(Dispatch),
@@ -257,6 +368,8 @@ fn nest(ds: &[Dispatch], f: &mut dyn FnMut()) {
 }
 
 fn worker(rx: mpsc::Receiver<Cmd>, tx: mpsc::Sender<String>) {
+    // register EARLY's destructor before this thread uses tracing at all
+    EARLY.with(|s| drop(s.borrow_mut().take()));
     let mut guards: Vec<DefaultGuard> = Vec::new();
     while let Ok(cmd) = rx.recv() {
         let reply = match cmd {
@@ -293,13 +406,10 @@ fn worker(rx: mpsc::Receiver<Cmd>, tx: mpsc::Sender<String>) {
             }
             Cmd::GetDefault(cs) => {
                 let (id, own) = dispatch::get_default(|d| {
-                    let own = match (cs, d.downcast_ref::<Rec>()) {
-                        (Some(i), Some(r)) => {
-                            let (_, _, lvl, ti) = &POOL[i];
-                            Some((r.decide_reg(lvl, TARGETS[*ti]), r.decide_en(lvl, TARGETS[*ti])))
-                        }
-                        _ => None,
-                    };
+                    let own = cs.and_then(|i| {
+                        let (_, _, lvl, ti) = &POOL[i];
+                        own_answers(d, lvl, TARGETS[*ti])
+                    });
                     (ident(d), own)
                 });
                 match own {
@@ -323,6 +433,14 @@ fn worker(rx: mpsc::Receiver<Cmd>, tx: mpsc::Sender<String>) {
                 format!("\"d\":{},\"unwound\":{}", seen, r.is_err() as u8)
             }
             Cmd::Quit => break,
+            Cmd::Exit(d, cs) => {
+                // CURRENT_STATE is registered now at the latest: after EARLY, before LATE
+                let _ = dispatch::get_current(|_| ());
+                let d = d.unwrap_or_else(Dispatch::none);
+                EARLY.with(|s| *s.borrow_mut() = Some(FlushOnExit { sink: d.clone(), cs }));
+                LATE.with(|s| *s.borrow_mut() = Some(FlushOnExit { sink: d, cs }));
+                break;
+            }
         };
         if tx.send(reply).is_err() {
             break;
@@ -337,6 +455,7 @@ fn worker(rx: mpsc::Receiver<Cmd>, tx: mpsc::Sender<String>) {
 struct Worker {
     tx: mpsc::Sender<Cmd>,
     rx: mpsc::Receiver<String>,
+    jh: Option<std::thread::JoinHandle<()>>,
 }
 
 fn run_one(text: &str) {
@@ -345,7 +464,7 @@ fn run_one(text: &str) {
     let mut out = out.lock();
     let mut confs: Vec<(usize, Vec<usize>, usize, usize)> = Vec::new();
     let mut handles: Vec<Option<Dispatch>> = Vec::new();
-    let mut flags: Vec<Arc<AtomicBool>> = Vec::new();
+    let mut flags: Vec<Option<Arc<AtomicBool>>> = Vec::new();   // None = a static collector: its flag is ZFLAG[c]
     let mut workers: Vec<Option<Worker>> = Vec::new();
     let mut opi = 0usize;
     for line in text.lines() {
@@ -368,11 +487,11 @@ fn run_one(text: &str) {
             if workers[t].is_none() {
                 let (ctx, crx) = mpsc::channel::<Cmd>();
                 let (rtx, rrx) = mpsc::channel::<String>();
-                std::thread::Builder::new()
+                let jh = std::thread::Builder::new()
                     .name(format!("T{}", t))
                     .spawn(move || worker(crx, rtx))
                     .expect("spawn");
-                workers[t] = Some(Worker { tx: ctx, rx: rrx });
+                workers[t] = Some(Worker { tx: ctx, rx: rrx, jh: Some(jh) });
             }
             let wk = workers[t].as_ref().unwrap();
             wk.tx.send(cmd).expect("worker gone");
@@ -390,17 +509,24 @@ fn run_one(text: &str) {
             "new" => {
                 let c = handles.len();
                 let (thr, tg, dy, hint) = confs.get(c).cloned().expect("not enough `col` lines");
-                let flag = Arc::new(AtomicBool::new(dy != 1));
-                let rec = Rec {
-                    id: c,
+                // target index 100 in the `col` line marks a `Dispatch::from_static` collector (zero-sized, in a static)
+                let is_static = tg.contains(&100) && c < NZ;
+                let filt = Filt {
                     thr: FILTERS[thr],
-                    tgts: tg,
+                    tgts: tg.into_iter().filter(|t| *t < TARGETS.len()).collect(),
                     dynamic: dy != 0,
-                    flag: flag.clone(),
                     hint: if hint == 0 { None } else { Some(FILTERS[hint - 1]) },
                 };
-                handles.push(Some(Dispatch::new(rec)));
-                flags.push(flag);
+                if is_static {
+                    let _ = ZCONF[c].set(filt);
+                    ZFLAG[c].store(dy != 1, Ordering::SeqCst);
+                    handles.push(Some(from_static(c)));
+                    flags.push(None);
+                } else {
+                    let flag = Arc::new(AtomicBool::new(dy != 1));
+                    handles.push(Some(Dispatch::new(Rec { id: c, filt, flag: flag.clone() })));
+                    flags.push(Some(flag));
+                }
                 body = format!("\"c\":{}", c);
             }
             "drop" => {
@@ -433,12 +559,26 @@ fn run_one(text: &str) {
                     None => body = "\"bad\":1".to_string(),
                 }
             }
+            "exit" => match disp_of(&handles, num(w[3])) {
+                Some(d) => {
+                    let t = num(w[2]);
+                    // make sure the thread exists (so that EARLY was registered at its start), then let it exit and join it
+                    let _ = send(&mut workers, t, Cmd::GetDefault(None));
+                    let mut wk = workers[t].take().unwrap();
+                    wk.tx.send(Cmd::Exit(d, num(w[4]))).expect("worker gone");
+                    wk.jh.take().unwrap().join().expect("worker panicked at exit");
+                }
+                None => body = "\"bad\":1".to_string(),
+            },
             "rebuild" => tracing_core::callsite::rebuild_interest_cache(),
             "flip" => {
                 let c = num(w[2]);
                 match flags.get(c) {
-                    Some(f) => {
+                    Some(Some(f)) => {
                         f.fetch_xor(true, Ordering::SeqCst);
+                    }
+                    Some(None) => {
+                        ZFLAG[c].fetch_xor(true, Ordering::SeqCst);
                     }
                     None => body = "\"bad\":1".to_string(),
                 }
